@@ -7,6 +7,7 @@ import (
 	"reflect"
 	"sort"
 	"strings"
+	"time"
 
 	"github.com/vektah/gqlparser/v2/ast"
 	"github.com/vektah/gqlparser/v2/gqlerror"
@@ -57,6 +58,9 @@ type Shared struct {
 	W          Wiring
 	Schema     *ast.Schema
 	resolverOf map[string]map[string]bool
+	// resultType: Go result type of each resolver ("type.field" normalised), for deciding
+	// which outcomes a configuration's Go types can express
+	resultType map[string]reflect.Type
 	es         graphql.ExecutableSchema
 	cur        *Env
 }
@@ -66,6 +70,20 @@ func NewShared(w Wiring) *Shared {
 	s.es = w.NewES(func() *Env { return s.cur })
 	CurEnv = func() *Env { return s.cur }
 	s.Schema = s.es.Schema()
+	s.resultType = map[string]reflect.Type{}
+	sv := reflect.ValueOf(w.Stub).Elem()
+	for i := 0; i < sv.NumField(); i++ {
+		grp := sv.Field(i)
+		if grp.Kind() != reflect.Struct {
+			continue
+		}
+		tn := strings.TrimSuffix(sv.Type().Field(i).Name, "Resolver")
+		for j := 0; j < grp.NumField(); j++ {
+			if ft := grp.Field(j).Type(); ft.Kind() == reflect.Func && ft.NumOut() > 0 {
+				s.resultType[norm(tn)+"."+norm(grp.Type().Field(j).Name)] = ft.Out(0)
+			}
+		}
+	}
 	for typ, gos := range ResolverFields(w.Stub) {
 		m := map[string]bool{}
 		for _, g := range gos {
@@ -79,6 +97,37 @@ func NewShared(w Wiring) *Shared {
 func norm(s string) string { return strings.ToLower(strings.ReplaceAll(s, "_", "")) }
 
 func (s *Shared) IsResolver(typ, field string) bool { return s.resolverOf[typ][norm(field)] }
+
+// Feasible tells whether the Go types of this configuration can express outcome alt at
+// position p (a value-typed result or element cannot be nil; the pointer / omit options
+// change which positions are nilable).
+func (s *Shared) Feasible(p Position, alt string) bool {
+	if alt != "null" || p.Object == "" {
+		return true
+	}
+	parts := strings.SplitN(p.Object, ".", 2)
+	if len(parts) != 2 {
+		return true
+	}
+	rt, ok := s.resultType[norm(parts[0])+"."+norm(parts[1])]
+	if !ok {
+		return true
+	}
+	switch p.Kind {
+	case "resolver":
+		return nilable(rt)
+	case "element":
+		for rt.Kind() == reflect.Ptr {
+			rt = rt.Elem()
+		}
+		if rt.Kind() != reflect.Slice {
+			return true
+		}
+		et := rt.Elem()
+		return nilable(et) || et == reflect.TypeOf(time.Time{})
+	}
+	return true
+}
 
 // Parse parses + validates an operation with the pristine gqlparser validator.
 func (s *Shared) Parse(op Op) (*ast.QueryDocument, gqlerror.List) {
